@@ -166,35 +166,28 @@ static char *c39_string(size_t n, size_t *lenp)
 }
 
 /* ------------------------------------------------------------------ (1) */
-/* predicate of finding KF-C39-int-wrap: the decimal magnitude does not fit an int */
-static int c39_int_out_of_range(const char *s)
-{
-	size_t i = 0; int neg = 0, nd = 0; unsigned long long v = 0;
-	while (dcr_isspace(s[i])) i++;
-	if (s[i] == '+' || s[i] == '-') { neg = s[i] == '-'; i++; }
-	while (s[i] >= '0' && s[i] <= '9') { if (nd < 15) v = v * 10 + (unsigned)(s[i] - '0'); else v = 1ULL << 60; i++; nd++; }
-	return neg ? v > 2147483648ULL : v > 2147483647ULL;
-}
-static void c39_kf_int(const char *s)
+/* predicate of finding KF-C39-int-wrap: a well-formed value whose decimal magnitude does not fit an int
+ * (taken from the reference scan itself: a second scan of the text costs the solver minutes) */
+static void c39_kf_int(int beyond_int)
 {
 #if defined(KF_EXCLUDE_INT_WRAP)
-	__CPROVER_assume(!c39_int_out_of_range(s));
+	__CPROVER_assume(!beyond_int);
 #elif defined(KF_ONLY_INT_WRAP)
-	__CPROVER_assume(c39_int_out_of_range(s));
+	__CPROVER_assume(beyond_int);
 #else
-	(void)s;
+	(void)beyond_int;
 #endif
 }
 void harness_int(void)
 {
 	size_t len;
 	char *s = c39_string(C39_N, &len);
-	int lo = vp_int(), hi = vp_int(), r, rc, want = 0, ok;
+	int lo = vp_int(), hi = vp_int(), r, rc, want = 0, ok, beyond = 0;
 	__CPROVER_assume(lo <= hi && lo != -1 && hi != -1);
-	c39_kf_int(s);
+	ok = dcr_int_ex(s, &want, &beyond);
+	c39_kf_int(ok && beyond);
 	r = strtoint(s);
 	rc = strtoint_clipped(s, lo, hi);
-	ok = dcr_int(s, &want);
 	if (!ok) {
 		VP_ASSERT(r == -1, "C39: strtoint accepted a malformed integer");
 		VP_ASSERT(rc == -1, "C39: strtoint_clipped accepted a malformed integer");
@@ -302,7 +295,10 @@ void harness_option(void)
 	k = dcr_opt_find(option);
 	val = c39_string(C39_VN, &vlen);
 	if ((k == DCR_NOPTS || dcr_opts[k].kind == DCR_FLAG) && vp_bool()) val_null = 1;   /* dns.h: NULL only for valueless options */
-	if (k != DCR_NOPTS && (dcr_opts[k].kind == DCR_INT || dcr_opts[k].kind == DCR_INT_MAX255 || dcr_opts[k].kind == DCR_CLIP)) c39_kf_int(val);
+	if (k != DCR_NOPTS && (dcr_opts[k].kind == DCR_INT || dcr_opts[k].kind == DCR_INT_MAX255 || dcr_opts[k].kind == DCR_CLIP)) {
+		int v0 = 0, beyond = 0, ok0 = dcr_int_ex(val, &v0, &beyond);
+		c39_kf_int(ok0 && beyond);
+	}
 
 	if (k == DCR_MAXINFLIGHT) {   /* keep the request table small (its size is not the subject; clipping at 65000: harness_int) */
 		int v = 0;
